@@ -9,6 +9,11 @@ CLAIMED = {
   level_note="Trusted: SimPopen models Popen's poll/communicate/kill semantics; fake tools act atomically at their exit instant; the life-cycle table of DESIGN.md Appendix A is the documented life cycle. External binaries themselves are stubs.",
   technique="deterministic simulation with fault injection (virtual clock, simulated child processes, seeded schedule and faults, reference model, ddmin replay)",
   design_ref="4.1, Appendix A"),
+ "C06": dict(
+  level_text="Seeded operation-and-restart histories on one CIFFile / BinaryCIFFile treated as a three-level key/value store: mapping operations, partial touches (lazy parsing), rejected operations and restarts from the durable serialised form through simulated media (memory, stream, path, temp-file wrapper, TextIOWrapper), checked step by step against a dict model; cell values come from an awkward-string pool and random compositions of awkward atoms at every table position. Sampling, not proof.",
+  level_note="Trusted: the dict model; value domain = printable strings without an embedded line break followed by ';' (inexpressible in CIF 1.1); identifier-like names; present cells are never '.' or '?'. Storage faults are not injected (the code has no reaction to them, see DESIGN 7).",
+  technique="deterministic simulation (seeded histories with restart-from-durable-state, rejected-operation faults, reference model, ddmin replay)",
+  design_ref="4.4, Appendix B"),
 }
 
 NA = {
